@@ -1,1 +1,2 @@
 import LLRP.Props.C19
+import LLRP.Props.C20
